@@ -160,4 +160,181 @@ C09_Applied(S, T, v, nx, out) ==
                 /\ T.veh[v].tgt = nx.tgt /\ T.veh[v].plug = nx.plug))
   THEN {V("C09", "applied_enters_activity", nx.act, v)} ELSE {}
 
+-----------------------------------------------------------------------------
+(* C04 - vehicle energy stays physical and fully accounted for.                                          *)
+(* Quantities are fixed point (1e-3 kWh / gallon).  Strict comparisons use the booleans the tracer       *)
+(* evaluated on the unrounded floats (the num record), bounds and identities use the scaled integers.            *)
+Charging == {"ChargingStation", "ChargingBase"}
+
+C04_State(S, cap, en0) ==
+  {V("C04", "energy_bounds", S.veh[v].kind, v) : v \in {v \in DOMAIN S.veh :
+      v \in DOMAIN cap /\ ~(0 <= S.veh[v].en /\ S.veh[v].en <= cap[v] + 1)}}
+  \cup
+  {V("C04", "accounting", S.veh[v].kind, v) : v \in {v \in DOMAIN S.veh :
+      v \in DOMAIN en0 /\
+      LET d == S.veh[v].en - (en0[v] + S.veh[v].gained - S.veh[v].spent) IN d > 3 \/ d < -3}}
+
+\* one vehicle update: B before, T after, n = numeric facts, out = outcome
+C04_Update(B, T, v, n, out) ==
+  LET a == T.veh[v].act  k == T.veh[v].kind  went_oos == a = "OutOfService" /\ B.veh[v].act # "OutOfService" IN
+     (IF ~n.acct_ok THEN {V("C04", "accounting_step", k, v)} ELSE {})
+  \cup (IF n.spent_neg \/ n.gain_neg THEN {V("C04", "totals_monotone", k, v)} ELSE {})
+  \cup (IF n.moved /\ ~(n.spent_pos /\ n.en_down) THEN {V("C04", "driving_expends", k, v)} ELSE {})
+  \cup (IF out = "ok" /\ a \in {"Idle", "ChargeQueueing"} /\ ~n.was_empty /\ ~(n.spent_pos /\ n.en_down)
+        THEN {V("C04", "idling_expends", k, v)} ELSE {})
+  \cup (IF a \in Charging /\ n.en_down THEN {V("C04", "charging_never_lowers", k, v)} ELSE {})
+  \cup (IF ~n.gain_le_plug THEN {V("C04", "charge_within_plug_power", k, v)} ELSE {})
+  \cup (IF n.gain_pos /\ a \notin Charging THEN {V("C04", "gain_only_when_charging", a, v)} ELSE {})
+  \cup (IF n.moved /\ (T.veh[v].empty \/ went_oos) THEN {V("C04", "empty_vehicle_stops", k, v)} ELSE {})
+
+\* any other event leaves every vehicle's energy figures alone
+C04_Frame(B, T) ==
+  {V("C04", "energy_changes_only_in_updates", "vehicle", v) : v \in {v \in DOMAIN B.veh \cap DOMAIN T.veh :
+      <<B.veh[v].en, B.veh[v].gained, B.veh[v].spent>> # <<T.veh[v].en, T.veh[v].gained, T.veh[v].spent>>}}
+
+-----------------------------------------------------------------------------
+(* C05 - energy and money are conserved between vehicles and stations (money 1e-4, prices 1e-4 per kWh) *)
+Abs(x) == IF x < 0 THEN -x ELSE x
+StationsTouched(B, T) ==
+  {s \in DOMAIN B.st \cap DOMAIN T.st : B.st[s].bal # T.st[s].bal \/ B.st[s].disp # T.st[s].disp}
+
+\* fare = value of the requests picked up in this update (0 if none)
+C05_Update(B, T, v, fare) ==
+  LET a   == T.veh[v].act
+      dE  == T.veh[v].gained - B.veh[v].gained
+      pay == fare - (T.veh[v].bal - B.veh[v].bal)
+      s   == IF a = "ChargingStation" THEN T.veh[v].tgt ELSE IF a = "ChargingBase" THEN BaseStation(T, T.veh[v].tgt) ELSE None
+      p   == T.veh[v].plug
+      k   == T.veh[v].kind
+  IN
+  IF a \in Charging /\ s \in DOMAIN B.st /\ p \in DOMAIN B.st[s].pl THEN
+       LET price == B.st[s].pl[p].price
+           dDisp == T.st[s].disp[k] - B.st[s].disp[k]
+           dBal  == T.st[s].bal - B.st[s].bal IN
+          (IF Abs(dDisp - dE) > 2 THEN {V("C05", "energy_both_sides", a, v)} ELSE {})
+       \cup (IF Abs(dBal - pay) > 2 THEN {V("C05", "payment_received_in_full", a, v)} ELSE {})
+       \cup (IF Abs(pay - ((price * dE) \div 1000)) > 3 + (price \div 500) THEN {V("C05", "priced_at_tariff", a, v)} ELSE {})
+       \cup (IF StationsTouched(B, T) \ {s} # {} THEN {V("C05", "only_the_station_used", a, v)} ELSE {})
+       \cup (IF \E kk \in DOMAIN T.st[s].disp \ {k} : T.st[s].disp[kk] # B.st[s].disp[kk]
+             THEN {V("C05", "energy_type_booked", a, v)} ELSE {})
+  ELSE
+          (IF Abs(dE) > 0 \/ Abs(pay) > 1 THEN {V("C05", "no_ledger_change_without_charging", a, v)} ELSE {})
+       \cup (IF StationsTouched(B, T) # {} THEN {V("C05", "station_ledger_only_by_charging", a, v)} ELSE {})
+
+C05_Frame(B, T) ==
+     {V("C05", "balance_changes_only_in_updates", "vehicle", v) : v \in {v \in DOMAIN B.veh \cap DOMAIN T.veh :
+         B.veh[v].bal # T.veh[v].bal}}
+  \cup {V("C05", "station_ledger_only_by_charging", "station", s) : s \in StationsTouched(B, T)}
+
+\* totals at a step boundary: energy per kind, and money (fares is the sum of the values of picked-up requests)
+SumOver(f, dom, Val(_)) ==
+  LET RECURSIVE Go(_)
+      Go(D) == IF D = {} THEN 0 ELSE LET x == CHOOSE x \in D : TRUE IN Val(x) + Go(D \ {x})
+  IN Go(dom)
+
+C05_Totals(S, disp0, fares, nev) ==
+  LET kinds == {"electric", "gasoline"}
+      gained(k) == SumOver(S.veh, {v \in DOMAIN S.veh : S.veh[v].kind = k}, LAMBDA v : S.veh[v].gained)
+      dispd(k)  == SumOver(S.st, {s \in DOMAIN S.st : k \in DOMAIN S.st[s].disp}, LAMBDA s : S.st[s].disp[k])
+      money     == SumOver(S.veh, DOMAIN S.veh, LAMBDA v : S.veh[v].bal) + SumOver(S.st, DOMAIN S.st, LAMBDA s : S.st[s].bal)
+  IN
+     {V("C05", "fleet_energy_equals_dispensed", k, k) : k \in {k \in kinds :
+         Abs(gained(k) - (dispd(k) - disp0[k])) > 2 * nev + 2}}
+  \cup (IF Abs(money - fares) > 2 * nev + 2 THEN {V("C05", "money_conserved", "total", "total")} ELSE {})
+
+-----------------------------------------------------------------------------
+(* C06 - vehicles move continuously and no faster than the road allows.                                   *)
+(* A route is a sequence of links <<id, start, end, dist_m, tt_ms, tt_whole_s>> (rt field).  The clauses  *)
+(* speak about one vehicle update in which the vehicle stays in the same travelling activity, i.e. a pure *)
+(* move: R0 the route before, R1 the remaining route after, k the number of links consumed entirely.      *)
+(* A link whose start equals its end is not driven at all (linktraversal.traverse_up_to: "already done"): it  *)
+(* costs no time and no distance whatever the length of the road-network link it names.                    *)
+LId(l) == l[1]   LStart(l) == l[2]   LEnd(l) == l[3]
+Degenerate(l) == l[2] = l[3]
+LDist(l) == IF Degenerate(l) THEN 0 ELSE l[4]
+LTtMs(l) == IF Degenerate(l) THEN 0 ELSE l[5]
+LTtS(l)  == IF Degenerate(l) THEN 0 ELSE l[6]
+
+SumSeq(sq, n, F(_)) ==
+  LET RECURSIVE Go(_)
+      Go(i) == IF i = 0 THEN 0 ELSE F(sq[i]) + Go(i - 1)
+  IN Go(n)
+
+PureMove(B, T, v) ==
+  /\ B.veh[v].act \in Moving /\ T.veh[v].act = B.veh[v].act /\ T.veh[v].tgt = B.veh[v].tgt /\ B.veh[v].rn > 0
+
+C06_Move(B, T, v, dt) ==
+  LET R0 == B.veh[v].rt  R1 == T.veh[v].rt
+      k  == Len(R0) - Len(R1)
+      split == R1 # <<>> /\ k >= 0 /\ k < Len(R0) /\ LStart(R1[1]) # LStart(R0[k + 1])
+      dOdo == T.veh[v].odo - B.veh[v].odo
+      a == B.veh[v].act
+  IN
+  IF ~PureMove(B, T, v) THEN {}
+  ELSE IF k < 0 THEN {V("C06", "route_is_suffix", a, v)}
+  ELSE
+     \* the driven part followed by the remaining part is the original route: same links, same order, same
+     \* destination; only the first remaining link may have been split (its start moved forward)
+     (IF \E i \in 1..Len(R1) :
+            \/ LId(R1[i]) # LId(R0[k + i]) \/ LEnd(R1[i]) # LEnd(R0[k + i])
+            \/ (i > 1 /\ R1[i] # R0[k + i])
+         THEN {V("C06", "route_is_suffix", a, v)} ELSE {})
+     \* the vehicle stands at the junction of driven and remaining part
+  \cup (IF T.veh[v].pos # (IF R1 # <<>> THEN LStart(R1[1]) ELSE LEnd(R0[Len(R0)]))
+        THEN {V("C06", "position_at_junction", a, v)} ELSE {})
+     \* links are entered only while time remains, each charged its whole-second travel time
+  \cup (IF SumSeq(R0, k, LTtS) > dt THEN {V("C06", "no_faster_than_links_allow", a, v)} ELSE {})
+  \cup (IF SumSeq(R0, k, LTtMs) > 1000 * (dt + k) THEN {V("C06", "no_faster_than_links_allow", "exact_time", v)} ELSE {})
+     \* odometer: the links driven entirely, plus at most the split link
+  \cup (IF dOdo < SumSeq(R0, k, LDist) - (k + 2)
+           \/ dOdo > SumSeq(R0, IF split THEN k + 1 ELSE k, LDist) + (k + 3)
+        THEN {V("C06", "odometer_matches_distance", IF split THEN "split" ELSE "whole_links", v)} ELSE {})
+     \* progress: fewer links remain, or the same first link with a start further along
+  \cup (IF R1 # <<>> /\ k = 0 /\ LStart(R1[1]) = LStart(R0[1]) /\ LStart(R0[1]) # LEnd(R0[Len(R0)])
+        THEN {V("C06", "progress_every_step", a, v)} ELSE {})
+
+\* position and odometer change only in the update of a vehicle whose (performing) activity travels
+C06_Frame(B, T, isUpdate, uv) ==
+  {V("C06", "moves_only_while_travelling", T.veh[v].act, v) : v \in {v \in DOMAIN B.veh \cap DOMAIN T.veh :
+      /\ (B.veh[v].pos # T.veh[v].pos \/ B.veh[v].odo # T.veh[v].odo)
+      /\ ~(isUpdate /\ v = uv /\ (T.veh[v].act \in Moving \/ (T.veh[v].act = "OutOfService" /\ B.veh[v].act \in Moving)))}}
+
+\* a vehicle whose route is exhausted leaves the travelling activity at its next update
+C06_Arrived(T, arrived, v) ==
+  IF v \in DOMAIN arrived /\ arrived[v] >= 1
+  THEN {V("C06", "leaves_after_arrival",
+          T.veh[v].act \o (IF T.veh[v].act = "DispatchTrip" /\ T.veh[v].tgt \in DOMAIN T.req /\ T.req[T.veh[v].tgt].pool /\ T.veh[v].pool
+                           THEN "/pooling_handoff" ELSE ""), v)}
+  ELSE {}
+
+-----------------------------------------------------------------------------
+(* C15 - the clock advances uniformly: only a tick changes the time, by exactly the step length *)
+C15_Step(B, T, ev, dt) ==
+  IF ev = "tick" THEN (IF T.now # B.now + dt THEN {V("C15", "tick_advances_one_step", "tick", "clock")} ELSE {})
+  ELSE (IF T.now # B.now THEN {V("C15", "only_tick_changes_time", ev, "clock")} ELSE {})
+
+-----------------------------------------------------------------------------
+(* C20 - human drivers follow their shift schedule.  sched[v] = <<start, end>> in seconds of day.       *)
+InShift(sh, t) ==
+  LET x == t % 86400 IN
+  IF sh[1] <= sh[2] THEN sh[1] <= x /\ x < sh[2] ELSE sh[1] <= x \/ x < sh[2]
+
+\* after the driver update of the step that starts at T.now
+C20_Drivers(B, T, sched, events) ==
+     {V("C20", "available_iff_in_shift", IF T.veh[v].avail THEN "on_outside_shift" ELSE "off_inside_shift", v) :
+         v \in {v \in DOMAIN T.veh : T.veh[v].human /\ T.veh[v].sched \in DOMAIN sched
+                                      /\ T.veh[v].avail # InShift(sched[T.veh[v].sched], T.now)}}
+  \cup {V("C20", "event_iff_flip", "flip_without_event", v) : v \in {v \in DOMAIN T.veh \cap DOMAIN B.veh :
+         B.veh[v].avail # T.veh[v].avail
+         /\ ~\E x \in events : x.vehicle_id = v /\ x.schedule_event = (IF T.veh[v].avail THEN "on" ELSE "off")}}
+  \cup {V("C20", "event_iff_flip", "event_without_flip", x.vehicle_id) : x \in {x \in events :
+         ~(x.vehicle_id \in DOMAIN T.veh \cap DOMAIN B.veh /\ B.veh[x.vehicle_id].avail # T.veh[x.vehicle_id].avail
+           /\ x.schedule_event = (IF T.veh[x.vehicle_id].avail THEN "on" ELSE "off"))}}
+  \cup {V("C20", "autonomous_always_available", "vehicle", v) : v \in {v \in DOMAIN T.veh : ~T.veh[v].human /\ ~T.veh[v].avail}}
+
+\* the built-in dispatcher's emission, against the state it was computed from
+C20_Dispatch(S, instrs) ==
+  {V("C20", "no_dispatch_off_shift", "Dispatcher", instrs[i].v) : i \in {i \in DOMAIN instrs :
+      instrs[i].kind = "DispatchTrip" /\ instrs[i].v \in DOMAIN S.veh /\ ~S.veh[instrs[i].v].avail}}
+
 =============================================================================
